@@ -1,18 +1,20 @@
 (* C05 (i): every operator body translated from operators.py (Gen/GenOperators.v) computes the
    documented arithmetic of Spec/Arith.v on all of Z, with exactly the same error cases. *)
 From Coq Require Import String Ascii List ZArith NArith Bool Lia.
-From Verif Require Import Base.Res Spec.ExprTokens Spec.Arith Gen.GenOperators.
+From Verif Require Import Base.Res Spec.ExprTokens Spec.Arith Gen.GenOperators Model.Lexer Model.ExprParse.
 Import ListNotations.
 Open Scope string_scope.
 Open Scope Z_scope.
 
-(* what a body's outcome means for the assembly: a value with no report, or the reports *)
+(* what a body's outcome means for the assembly: a value with no report, or the reports.
+   A MemoryError raised by a body is what compiler.py reports as 'too-complex' (the refusal of an
+   absurd shift count); if reports were made before it, they stay. *)
 Definition res_of (r : res opres) : res Z :=
   match r with
   | Ok (v, []) => Ok v
   | Ok (_, ids) => Err ids
-  | Err ids => Err ids
-  | Crash s => Crash s
+  | Err ids => Err (map raised_id ids)
+  | Crash s => if String.eqb s "MemoryError" then Err ["too-complex"] else Crash s
   | OutOfFuel => OutOfFuel
   end.
 
@@ -61,8 +63,12 @@ Proof. intros ->. apply Z.shiftr_0_r. Qed.
 Lemma shiftl_zero a b : b = 0 -> Z.shiftl a b = a.
 Proof. intros ->. apply Z.shiftl_0_r. Qed.
 
+Lemma mul_shiftl_one a b : 0 <= b -> a * Z.shiftl 1 b = Z.shiftl a b.
+Proof. intros. rewrite !Z.shiftl_mul_pow2 by assumption. ring. Qed.
+
 Ltac close_op :=
   simpl; try reflexivity; try (exfalso; lia);
+  repeat rewrite mul_shiftl_one by lia;
   repeat rewrite shiftl_as_mul by lia;
   try reflexivity;
   try (rewrite shiftr_neg_zero by lia; reflexivity);
@@ -72,38 +78,74 @@ Ltac close_op :=
   try (symmetry; rewrite shiftl_zero by lia; reflexivity);
   try (f_equal; lia).
 
-Ltac op_agrees :=
-  unfold body_div, body_mod, body_lshift, body_rshift, body_lsh,
-         py_floordiv, py_mod, py_pow, py_lshift, py_rshift, py_assert, catch_zde, sem_bin, arith_error;
-  split_tests; tests_to_facts; close_op.
+Ltac unfold_ops :=
+  unfold body_div, body_mod, body_lshift, body_rshift, body_lsh, fn_times_power_of_two, MAX_SHIFT, reported_then,
+         py_floordiv, py_mod, py_pow, py_lshift, py_rshift, py_assert, catch_zde, sem_bin, arith_error,
+         too_complex, max_shift.
+
+Ltac op_agrees := unfold_ops; split_tests; tests_to_facts; close_op.
 
 Lemma agree_div a b : res_of (body_div a b) = sem_bin BDiv a b.
 Proof. op_agrees. Qed.
 Lemma agree_mod a b : res_of (body_mod a b) = sem_bin BMod a b.
 Proof. op_agrees. Qed.
+(* a left shift is carried out up to 65536 bits and refused beyond: for every a and b *)
 Lemma agree_lshift a b : res_of (body_lshift a b) = sem_bin BShl a b.
-Proof. op_agrees. Qed.
-Lemma agree_rshift a b : res_of (body_rshift a b) = sem_bin BShr a b.
 Proof. op_agrees. Qed.
 Lemma agree_lsh a b : res_of (body_lsh a b) = sem_bin BLsh a b.
 Proof. op_agrees. Qed.
+(* >> with a negative count is an error for the Spec whatever the count; the code then goes on to
+   shift left by -b, and refuses that too when -b is beyond the bound *)
+Lemma agree_rshift a b : - max_shift <= b -> res_of (body_rshift a b) = sem_bin BShr a b.
+Proof. unfold max_shift. intros. op_agrees. Qed.
+Lemma agree_rshift_beyond a b : b < - max_shift ->
+  res_of (body_rshift a b) = Err ["arithmetic-error"; "too-complex"] /\ sem_bin BShr a b = Err ["arithmetic-error"].
+Proof. unfold max_shift. intros. split; op_agrees. Qed.
 
-Lemma ops_agree_bin : forall (o : binop) (a b : Z),
+(* the only condition: for >>, the count is not below -65536 (see agree_rshift_beyond) *)
+Definition count_ok (o : binop) (b : Z) : Prop :=
+  match o with BShr => - max_shift <= b | _ => True end.
+
+Lemma ops_agree_bin : forall (o : binop) (a b : Z), count_ok o b ->
   exists f, infix_body (binop_text o) = Some f /\ res_of (f a b) = sem_bin o a b.
 Proof.
-  intros o a b. destruct o; eexists; (split; [reflexivity|]).
+  intros o a b Hc. destruct o; eexists; (split; [reflexivity|]).
   - reflexivity.
   - apply agree_div.
   - apply agree_mod.
   - reflexivity.
   - reflexivity.
   - apply agree_lshift.
-  - apply agree_rshift.
+  - apply agree_rshift. exact Hc.
   - apply agree_lsh.
   - reflexivity.
   - reflexivity.
   - reflexivity.
   - reflexivity.
+Qed.
+
+(* without any condition: the body gives the Spec's value, or reports every error the Spec names *)
+Definition res_covers (m s : res Z) : Prop :=
+  match s with
+  | Ok v => m = Ok v
+  | Err ids => exists ids', m = Err ids' /\ forall id, In id ids -> In id ids'
+  | _ => False
+  end.
+
+Lemma ops_agree_bin_all : forall (o : binop) (a b : Z),
+  exists f, infix_body (binop_text o) = Some f /\ res_covers (res_of (f a b)) (sem_bin o a b).
+Proof.
+  intros o a b.
+  assert (Hrefl : forall r : res Z, match r with Ok _ | Err _ => True | _ => False end -> res_covers r r).
+  { intros [v|ids|s|]; simpl; try contradiction; intros _; [reflexivity|]. exists ids. auto. }
+  assert (Hcase : count_ok o b \/ (o = BShr /\ b < - max_shift)).
+  { destruct o; simpl; auto. destruct (Z_le_gt_dec (- max_shift) b); [left; assumption|right; split; [reflexivity|unfold max_shift in *; lia]]. }
+  destruct Hcase as [Hc|[-> Hb]].
+  - destruct (ops_agree_bin o a b Hc) as [f [Hf Hag]].
+    exists f. split; [exact Hf|]. rewrite Hag. apply Hrefl.
+    destruct o; unfold_ops; split_tests; exact I.
+  - exists body_rshift. split; [reflexivity|]. destruct (agree_rshift_beyond a b Hb) as [H1 H2].
+    rewrite H1, H2. simpl. eexists. split; [reflexivity|]. intros id [E|[]]. left. exact E.
 Qed.
 
 Lemma ops_agree_un : forall (u : unop) (a : Z),
@@ -112,18 +154,33 @@ Proof.
   intros u a. destruct u; eexists; (split; [reflexivity|]); reflexivity.
 Qed.
 
-(* no raising case of the Python operators is reachable from an operator body *)
-Lemma ops_no_crash_bin : forall (o : binop) (a b : Z),
-  exists f, infix_body (binop_text o) = Some f /\ forall s, f a b <> Crash s.
+(* the only exception an operator body can raise is the MemoryError of a left shift beyond the bound:
+   no ZeroDivisionError, no ValueError of a negative shift count, no float from **, no failing assert *)
+Lemma ops_crash_only_refusal : forall (o : binop) (a b : Z),
+  exists f, infix_body (binop_text o) = Some f /\
+            forall s, f a b = Crash s -> s = "MemoryError" /\ max_shift < b.
 Proof.
-  intros o a b. destruct (ops_agree_bin o a b) as [f [Hf Hag]]. exists f. split; [exact Hf|].
-  intros s Hc. rewrite Hc in Hag. simpl in Hag. destruct o; simpl in Hag;
-    repeat match type of Hag with context [if ?c then _ else _] => destruct c end; discriminate.
+  intros o a b. destruct o; eexists; (split; [reflexivity|]); intros s; unfold_ops;
+    split_tests; tests_to_facts; try (exfalso; lia); intros H; try discriminate; inversion H; (split; [reflexivity|lia]).
 Qed.
 
 (* the documented meaning of the shifts, for reference: multiplication / floor division by a power of two *)
-Lemma shl_is_mul a b : 0 <= b -> sem_bin BShl a b = Ok (a * 2 ^ b).
-Proof. intros. unfold sem_bin. rewrite (ltb_false_of_le b 0) by lia. rewrite Z.shiftl_mul_pow2 by lia. reflexivity. Qed.
+Lemma shl_is_mul a b : 0 <= b <= max_shift -> sem_bin BShl a b = Ok (a * 2 ^ b).
+Proof.
+  unfold max_shift. intros. unfold sem_bin, max_shift. rewrite (ltb_false_of_le b 0) by lia.
+  rewrite (ltb_false_of_le 65536 b) by lia. rewrite Z.shiftl_mul_pow2 by lia. reflexivity.
+Qed.
+Lemma shl_refused a b : max_shift < b -> sem_bin BShl a b = Err ["too-complex"] /\ sem_bin BLsh a b = Err ["too-complex"].
+Proof.
+  unfold max_shift. intros. unfold sem_bin, max_shift, too_complex. rewrite (ltb_false_of_le b 0) by lia.
+  rewrite (ltb_true_of_lt 65536 b) by lia.
+  replace (0 <=? b) with true by (symmetry; apply Z.leb_le; lia). split; reflexivity.
+Qed.
+Lemma lsh_is_mul a b : 0 <= b <= max_shift -> sem_bin BLsh a b = Ok (a * 2 ^ b).
+Proof.
+  unfold max_shift. intros. unfold sem_bin, max_shift. replace (0 <=? b) with true by (symmetry; apply Z.leb_le; lia).
+  rewrite (ltb_false_of_le 65536 b) by lia. rewrite Z.shiftl_mul_pow2 by lia. reflexivity.
+Qed.
 Lemma shr_is_div a b : 0 <= b -> sem_bin BShr a b = Ok (a / 2 ^ b).
 Proof. intros. unfold sem_bin. rewrite (ltb_false_of_le b 0) by lia. rewrite Z.shiftr_div_pow2 by lia. reflexivity. Qed.
 Lemma lsh_neg_is_div a b : b < 0 -> sem_bin BLsh a b = Ok (a / 2 ^ (- b)).
